@@ -9,6 +9,32 @@ LINEAR = ["countmin._query_linear", "countmin._add_linear", "countmin._merge_lin
 LOG = ["countmin._counter2value", "countmin._rand", "countmin._log_counter", "countmin._query_log16", "countmin._query_log8", "countmin._add_log16", "countmin._add_log8", "countmin._merge_log16", "countmin._merge_log8"]
 
 
+def constructor_rows(chk):
+    """the log constructors hand _find_base their own max_count / num_reserved / ceiling, within the
+    ranges of its declared parameter types (no silent truncation at the dispatcher), and let its
+    ValueError through (also used by C09: the base the merge kernels decode with)"""
+    from .. import glue, pyexec
+    from . import _glue, _wrappers
+
+    ex = glue.make_exec(chk)
+    for cls in ("CountMinLog16", "CountMinLog8"):
+        try:
+            a_, objs, bad_ = _glue.good_objects(ex, cls, "fb")
+        except pyexec.Unsupported as e:
+            chk.undecided.append((cls + ".__init__", "unsupported construct in glue: %s" % e))
+            continue
+        for ref, st in objs[:1]:
+            ks = [e for e in st.effects if e[0] == "kernel" and e[1] == "countmin._find_base"]
+            _wrappers.row(chk, cls + ".__init__:calls-_find_base-once", len(ks) == 1, None)
+            f = st.objs[ref.oid]["fields"]
+            for e in ks:
+                _wrappers.args_in_range(chk, cls + ".__init__", e, st.pc)
+                ok = all(_wrappers.same_value(chk, st.pc, e[2][pn], f[fn_]) for pn, fn_ in (("max_count", "max_count"), ("num_reserved", "num_reserved"), ("uint_max", "uint_maxval")))
+                _wrappers.row(chk, cls + ".__init__:_find_base-gets-own-max_count/num_reserved/ceiling", ok, None)
+        verr = [1 for v, s_ in bad_ if _glue.exc_type(s_, v) is ValueError]
+        _wrappers.row(chk, cls + ".__init__:ValueError-of-_find_base-propagates", len(verr) >= 1, None)
+
+
 def run(chk):
     cone = _cm.cone("w-")
     only = _cm.only_strength("w-")
@@ -46,23 +72,7 @@ def run(chk):
     from .. import glue, pyexec
     from . import _wrappers
 
-    ex = glue.make_exec(chk)
-    for cls in ("CountMinLog16", "CountMinLog8"):
-        try:
-            a_, objs, bad_ = _glue.good_objects(ex, cls, "fb")
-        except pyexec.Unsupported as e:
-            chk.undecided.append((cls + ".__init__", "unsupported construct in glue: %s" % e))
-            continue
-        for ref, st in objs[:1]:
-            ks = [e for e in st.effects if e[0] == "kernel" and e[1] == "countmin._find_base"]
-            _wrappers.row(chk, cls + ".__init__:calls-_find_base-once", len(ks) == 1, None)
-            f = st.objs[ref.oid]["fields"]
-            for e in ks:
-                _wrappers.args_in_range(chk, cls + ".__init__", e, st.pc)
-                ok = all(_wrappers.same_value(chk, st.pc, e[2][pn], f[fn_]) for pn, fn_ in (("max_count", "max_count"), ("num_reserved", "num_reserved"), ("uint_max", "uint_maxval")))
-                _wrappers.row(chk, cls + ".__init__:_find_base-gets-own-max_count/num_reserved/ceiling", ok, None)
-        verr = [1 for v, s_ in bad_ if _glue.exc_type(s_, v) is ValueError]
-        _wrappers.row(chk, cls + ".__init__:ValueError-of-_find_base-propagates", len(verr) >= 1, None)
+    constructor_rows(chk)
     _cm.crosscheck_linear(chk)
     quick = chk.tier == "quick"
     # constructor clause: _find_base is 200 float Newton steps - outside the verifier's reach
